@@ -16,7 +16,7 @@ else:  # pragma: no cover
     xrange = range
 
     def repr_bytes(x):
-        return repr(x)[1:]
+        return repr(x)[1:] if isinstance(x, bytes) else repr(x)
 
 
 def with_metaclass(meta, *bases):
